@@ -120,6 +120,10 @@ type rcH struct {
 	calls     []rcCall
 	seen      []bool // the request of call k has reached the service
 	buf       int    // messages waiting in the client's send buffer for the handshake
+	gate      *rcGate      // what the service reads the current connection through
+	big       map[int]bool // call slot k holds a SendTx of the big transaction
+	carried   bool         // a message is carried over to the next handshake
+	bigNext   bool
 	seenAt    []time.Time
 	doneAt    []time.Time
 	hashes    map[bitcoin.Hash32]bool
@@ -150,6 +154,56 @@ func rcTx(key int) *wire.MsgTx {
 
 func rcHeader(key int) wire.BlockHeader {
 	return wire.BlockHeader{Version: 1, Bits: uint32(key), Nonce: 77}
+}
+
+// rcGate lets the scripted service stop reading its connection (the peer's writes then block once the socket buffers are full).
+type rcGate struct {
+	c      net.Conn
+	mu     sync.Mutex
+	cond   *sync.Cond
+	paused bool
+	closed bool
+}
+
+func newRcGate(c net.Conn) *rcGate {
+	g := &rcGate{c: c}
+	g.cond = sync.NewCond(&g.mu)
+	return g
+}
+
+func (g *rcGate) Read(p []byte) (int, error) {
+	g.mu.Lock()
+	for g.paused && !g.closed {
+		g.cond.Wait()
+	}
+	g.mu.Unlock()
+	return g.c.Read(p)
+}
+
+func (g *rcGate) set(paused, closed bool) {
+	g.mu.Lock()
+	g.paused, g.closed = paused, g.closed || closed
+	g.mu.Unlock()
+	g.cond.Broadcast()
+}
+
+// rcBigTx is a transaction far larger than the socket buffers of a loop-back connection.
+var rcBigMu sync.Mutex
+var rcBigTxs = map[int]*wire.MsgTx{}
+
+func rcBigTx(key int) *wire.MsgTx {
+	rcBigMu.Lock()
+	defer rcBigMu.Unlock()
+	if tx, ok := rcBigTxs[key]; ok {
+		return tx
+	}
+	tx := rcTx(key)
+	script := make([]byte, 32<<20)
+	script[0] = 0x6a
+	tx.AddTxOut(wire.NewTxOut(0, script))
+	rcBigTxs[key] = tx
+	rcTxKey[*tx.TxHash()] = key
+	return tx
 }
 
 var rcTxKey = map[bitcoin.Hash32]int{}
@@ -213,7 +267,18 @@ func newRC(t *testing.T, ctype ConnectionType, ncalls int) *rcH {
 	if !h.newConn() {
 		t.Fatalf("the client did not connect")
 	}
+	h.awaitPublished()
 	return h
+}
+
+// awaitPublished waits until the client has published the connection the service is talking on to its direct writers
+// (connect : 1216 writes the register message, maintainConnection : 1437 stores the connection afterwards).
+func (h *rcH) awaitPublished() {
+	for dl := time.Now().Add(300 * time.Millisecond); time.Now().Before(dl); time.Sleep(time.Millisecond) {
+		if cl, ok := h.c.conn.Load().(net.Conn); ok && cl != nil && cl.LocalAddr().String() == h.conn.RemoteAddr().String() {
+			break
+		}
+	}
 }
 
 // newConn waits for the client to connect and send its Register message.
@@ -230,8 +295,10 @@ func (h *rcH) newConn() bool {
 	in := make(chan *Message, 1000)
 	h.in = in
 	conn := h.conn
+	h.gate = newRcGate(conn)
+	gate := h.gate
 	go func() {
-		r := bufio.NewReader(conn)
+		r := bufio.NewReader(gate)
 		for {
 			m := &Message{}
 			if err := m.Deserialize(r); err != nil {
@@ -318,7 +385,7 @@ func (h *rcH) record(m *Message) {
 	case *GetHeader:
 		e.Key = rcHdrKey[p.BlockHash]
 	case *GetHeaders:
-		e.Key = int(p.RequestHeight)
+		e.Key = int(p.RequestHeight) + 1 // abstract key k is height k-1: key 1 is the genesis height
 	case *ReprocessTx:
 		e.Key = int(p.TxID[0])
 	case *MarkHeaderInvalid:
@@ -346,6 +413,14 @@ func (h *rcH) startCall(k int, kind string, key int) {
 	h.results[k] = res
 	h.calls[k] = rcCall{St: "pending", Kind: kind, Key: key, RKey: -1}
 	h.seen[k] = false
+	if h.big == nil {
+		h.big = map[int]bool{}
+	}
+	big := h.bigNext
+	h.big[k], h.bigNext = big, false
+	if big {
+		rcBigTx(key) // built (and registered) before the service can see it
+	}
 	go func() {
 		var err error
 		rkey := -1
@@ -365,9 +440,17 @@ func (h *rcH) startCall(k int, kind string, key int) {
 			}
 		case "GetHeaders":
 			var hs *Headers
-			hs, err = h.c.GetHeaders(ctx, key, 1)
-			if err == nil && hs != nil {
-				rkey = int(hs.RequestHeight)
+			if k%2 == 1 { // odd call slots go through BlockHash, which is a GetHeaders call for one header
+				var bh *bitcoin.Hash32
+				bh, err = h.c.BlockHash(ctx, key-1)
+				if err == nil && bh != nil {
+					rkey = rcHdrKey[*bh]
+				}
+			} else {
+				hs, err = h.c.GetHeaders(ctx, key-1, 1)
+				if err == nil && hs != nil {
+					rkey = int(hs.RequestHeight) + 1
+				}
 			}
 		case "ReprocessTx":
 			err = h.c.ReprocessTx(ctx, rcHash(key), nil)
@@ -379,7 +462,11 @@ func (h *rcH) startCall(k int, kind string, key int) {
 			err = h.c.MarkHeaderNotInvalid(ctx, rcHash(key))
 			rkey = key
 		case "SendTx":
-			err = h.c.SendTx(ctx, rcTx(key))
+			tx := rcTx(key)
+			if big {
+				tx = rcBigTx(key)
+			}
+			err = h.c.SendTx(ctx, tx)
 			rkey = key
 		case "FeeQuotes":
 			_, err = h.c.GetFeeQuotes(ctx)
@@ -505,7 +592,7 @@ func (h *rcH) response(kind string, key int, form string) MessagePayload {
 		return &Header{Header: rcHeader(key), BlockHeight: uint32(key)}
 	case "GetHeaders":
 		hd := rcHeader(key)
-		return &Headers{RequestHeight: int32(key), StartHeight: uint32(key), Headers: []*wire.BlockHeader{&hd}}
+		return &Headers{RequestHeight: int32(key - 1), StartHeight: uint32(key), Headers: []*wire.BlockHeader{&hd}}
 	case "FeeQuotes":
 		return &FeeQuotes{}
 	}
@@ -559,6 +646,7 @@ func (h *rcH) step(a rcAct) (res string) {
 		if a.Kind == "replay" {
 			acc = h.lastAcc // the genuine accept of an earlier connection, byte for byte
 		}
+		h.pump(0, 0) // what arrived before the accept was even sent
 		if err := h.send(acc); err != nil {
 			return "send: " + err.Error()
 		}
@@ -574,6 +662,7 @@ func (h *rcH) step(a rcAct) (res string) {
 			if h.ctype != ConnectionTypeFull {
 				h.pump(h.buf, rcWait) // queued requests are released by the handshake
 				h.buf = 0
+				h.carried = false
 			}
 		} else {
 			select {
@@ -600,6 +689,7 @@ func (h *rcH) step(a rcAct) (res string) {
 		}
 		h.pump(1+h.buf, rcWait)
 		h.buf = 0
+		h.carried = false
 	case "Call":
 		if h.calls[a.K].St == "pending" {
 			return "slot busy"
@@ -612,6 +702,19 @@ func (h *rcH) step(a rcAct) (res string) {
 			time.Sleep(30 * time.Millisecond)
 			h.pump(0, 0)
 		}
+	case "CallBig":
+		if h.calls[a.K].St == "pending" {
+			return "slot busy"
+		}
+		if !h.hs || h.conn == nil || h.carried {
+			return "not connected"
+		}
+		h.gate.set(true, false) // the service stops reading: the client's write blocks
+		h.bigNext = true
+		h.startCall(a.K, "SendTx", a.Key)
+		h.carried = true
+		h.buf++
+		time.Sleep(100 * time.Millisecond)
 	case "Respond":
 		c := h.calls[a.K]
 		key := c.Key
@@ -622,7 +725,17 @@ func (h *rcH) step(a rcAct) (res string) {
 		if form == "wrongkey" {
 			form = "ok"
 		}
-		if err := h.send(h.response(c.Kind, key, form)); err != nil {
+		rp := h.response(c.Kind, key, form)
+		if h.big[a.K] && c.Kind == "SendTx" {
+			bh := *rcBigTx(key).TxHash()
+			switch x := rp.(type) {
+			case *Accept:
+				x.Hash = &bh
+			case *Reject:
+				x.Hash = &bh
+			}
+		}
+		if err := h.send(rp); err != nil {
 			return "send: " + err.Error()
 		}
 		if form == "reject" && !h.c.IsAccepted(ctx) {
@@ -739,6 +852,7 @@ func (h *rcH) step(a rcAct) (res string) {
 	case "Drop":
 		if h.conn != nil {
 			h.conn.Close()
+			h.gate.set(false, true)
 		}
 		h.conn = nil
 		if !h.newConn() {
@@ -747,6 +861,14 @@ func (h *rcH) step(a rcAct) (res string) {
 		// the register message is written before the connection's routines (and flags) are set up
 		for dl := time.Now().Add(200 * time.Millisecond); h.c.IsAccepted(ctx) && time.Now().Before(dl); {
 			time.Sleep(time.Millisecond)
+		}
+		// ... and before the client publishes the new connection to its direct writers (connect : 1216 writes, maintainConnection : 1437 stores)
+		h.awaitPublished()
+		// nothing but handshake messages may follow the register message (a carried-over message gets time to show up)
+		if h.carried {
+			h.pump(1, 500*time.Millisecond)
+		} else {
+			h.pump(0, 0)
 		}
 	case "Stop":
 		close(h.interrupt)
